@@ -1,6 +1,7 @@
 package rules
 
 import (
+	"fmt"
 	"go/token"
 	"go/types"
 	"strings"
@@ -32,6 +33,7 @@ func c19Extra(c *core.Ctx, fns []*ssa.Function) {
 	c19Provenance(c, fns)
 	c19Shifts(c, fns)
 	c19MutableGlobals(c, fns)
+	c19ValueDependentChoice(c, fns)
 }
 
 // c19DependsOnInstant: the backward data slice of v (inside its function) reaches a value of type time.Time.
@@ -359,4 +361,127 @@ func c19MutableGlobals(c *core.Ctx, fns []*ssa.Function) {
 		}
 	}
 	c.Note("R19g: %d function(s) in the date-time call tree, %d package-level variable read(s) (expected 0 mutable on the pinned tree; positive control: seeded C19-6)", len(scope), nUses)
+}
+
+// R19i no value-dependent choice between computations: which conversion steps are applied is decided by the
+// arguments that configure the call (unit, zone names, layout flags), by what the parser reports about the text
+// (SmartParse's zone flag) and by errors — never by the instant itself or by the magnitude of the epoch number. An If
+// whose condition derives from a time.Time value or from the parsed epoch integer, and whose two edges can both reach a
+// return without an error, selects between two different answers for inputs that the property treats alike (seed C19-7:
+// zone flag cleared when the parsed location is UTC; seed C19-9: 12-digit SECOND epochs re-read as milliseconds). A
+// value test whose one edge only leads to error returns (a range check) is not reported.
+func c19ValueDependentChoice(c *core.Ctx, fns []*ssa.Function) {
+	n := 0
+	for _, f := range fns {
+		res := f.Signature.Results()
+		hasErr := res.Len() >= 1 && c19IsError(res.At(res.Len()-1).Type())
+		var tainted func(v ssa.Value, seen map[ssa.Value]bool, d int) bool
+		tainted = func(v ssa.Value, seen map[ssa.Value]bool, d int) bool {
+			if v == nil || seen[v] || d > 16 {
+				return false
+			}
+			seen[v] = true
+			if c19IsTime(v.Type()) {
+				return true
+			}
+			switch x := v.(type) {
+			case *ssa.Const, *ssa.Global, *ssa.Parameter, *ssa.FreeVar, *ssa.Function, *ssa.Builtin:
+				return false
+			case *ssa.Extract:
+				if call, ok := x.Tuple.(*ssa.Call); ok {
+					if o := core.CalleeObj(call); o != nil && o.Pkg() != nil && o.Pkg().Path() == "strconv" && strings.HasPrefix(o.Name(), "Parse") && x.Index == 0 {
+						if bt, ok := x.Type().Underlying().(*types.Basic); ok && bt.Info()&types.IsNumeric != 0 {
+							return true // the epoch number
+						}
+					}
+					if c19IsError(x.Type()) {
+						return false
+					}
+					// other results of a call: derived from its arguments
+					for _, a := range call.Call.Args {
+						if tainted(a, seen, d+1) {
+							return true
+						}
+					}
+					return false
+				}
+				return tainted(x.Tuple, seen, d+1)
+			case *ssa.UnOp:
+				if x.Op == token.MUL {
+					if a, ok := x.X.(*ssa.Alloc); ok {
+						for _, r := range core.Referrers(a) {
+							if st, ok := r.(*ssa.Store); ok && st.Addr == a && tainted(st.Val, seen, d+1) {
+								return true
+							}
+						}
+					}
+					return false
+				}
+				return tainted(x.X, seen, d+1)
+			case *ssa.Call:
+				if c19IsError(x.Type()) {
+					return false
+				}
+				args := x.Call.Args
+				for _, a := range args {
+					if tainted(a, seen, d+1) {
+						return true
+					}
+				}
+				return false
+			}
+			if in, ok := v.(ssa.Instruction); ok {
+				for _, op := range in.Operands(nil) {
+					if *op != nil && tainted(*op, seen, d+1) {
+						return true
+					}
+				}
+			}
+			return false
+		}
+		// can a block reach a return that carries no error?
+		okReturn := map[*ssa.BasicBlock]bool{}
+		for _, rt := range c19Returns(f) {
+			if !hasErr || core.IsNilConst(rt.Results[res.Len()-1]) {
+				okReturn[rt.Block()] = true
+			} else if _, isConst := rt.Results[res.Len()-1].(*ssa.Const); !isConst {
+				// error value not syntactically nil: may be nil through a phi
+				if p, ok := rt.Results[res.Len()-1].(*ssa.Phi); ok {
+					for _, e := range p.Edges {
+						if core.IsNilConst(e) {
+							okReturn[rt.Block()] = true
+						}
+					}
+				}
+			}
+		}
+		reachesOK := func(b *ssa.BasicBlock) bool {
+			for x := range core.ReachableBlocks(b, nil) {
+				if okReturn[x] {
+					return true
+				}
+			}
+			return false
+		}
+		for _, b := range f.Blocks {
+			if len(b.Instrs) == 0 {
+				continue
+			}
+			ifi, ok := b.Instrs[len(b.Instrs)-1].(*ssa.If)
+			if !ok {
+				continue
+			}
+			n++
+			if !tainted(ifi.Cond, map[ssa.Value]bool{}, 0) {
+				continue
+			}
+			key := core.FuncKey(f) + " chooses by the instant's value"
+			if reachesOK(b.Succs[0]) && reachesOK(b.Succs[1]) {
+				c.Bad("R19i", key, core.InstrPos(ifi), "this branch condition derives from the parsed instant / epoch number, and both edges can reach a successful return: two inputs that differ only in the instant they denote are taken through different conversion steps (zone binding, unit scaling), so the instant is not preserved for one of them")
+			} else {
+				c.OK("R19i", key, core.InstrPos(ifi), "value test whose other edge only leads to error returns (range check)")
+			}
+		}
+	}
+	c.OK("R19i", "branch conditions of the date-time functions", 0, fmt.Sprintf("%d branch condition(s) inspected: none derives from a time.Time value or the parsed epoch number unless reported", n))
 }
